@@ -1,4 +1,5 @@
 import ArrProofs.Lemmas.C20
+import ArrProofs.Lemmas.C20Int
 /-!
 # C20 — operator overloads equal the native scalar operators at every position
 
@@ -8,8 +9,9 @@ Property theorems only (helpers in `ArrProofs/Lemmas/C20.lean`).  Model under te
 `impl_bitwise_ops!`, `Not`, `PartialEq`, `PartialOrd` statement by statement.
 
 All theorems hold for every element type, every scalar function `f`/`g`/`eq`/`pcmp`, every shape (no bound on
-rank or length).  `f` stands for the native scalar operator; that the crate applies *the native operator* of the
-element type is not a Lean statement — it is checked by the tie, natively and bit-exactly.
+rank or length).  `f` stands for the native scalar operator.  For the INTEGER element types and `bool` the native
+operator itself is modelled (`ArrModel/C20Int.lean`, second half of this file: every width, every value, both
+builds); for the float types it stays a parameter that the tie evaluates natively and bit-exactly.
 -/
 namespace ArrModel.C20
 open ArrModel Arr
@@ -298,5 +300,455 @@ example : FirstAt Flt.pcmp (some .lt) [some 1, some 2, some 3] [some 1, some 2, 
     | 1, _ => simp at hu hv; subst hu hv; decide⟩
 /-- without well-formedness the compound form and the plain form really differ (the hypothesis is needed) -/
 example : assignop (· + ·) (⟨[1, 2, 3], [2]⟩ : Arr Int) ⟨[1], [2]⟩ ≠ binop (· + ·) ⟨[1, 2, 3], [2]⟩ ⟨[1], [2]⟩ := by decide
+
+
+/-! # the NATIVE integer operators (`ArrModel/C20Int.lean`) — every width, every value
+
+Scalars are `BitVec w` read through `IntTy.val` (two's complement for the signed types); `Build.harness` is the build
+`./check` executes (`overflow-checks = true`), `Build.release` a plain release build (wrap-around).  `scalarBin … = none`
+means: the operator panics. -/
+
+section native
+variable (ty : IntTy) (bld : Build)
+
+/-! ## the array theorems instantiate to the native scalars -/
+
+/-- **`a op b` with the native operator**: on well-formed equally shaped arrays the integer-valued model is the native
+operator at every position — a value exactly when no position panics. -/
+theorem iBinop_native (op : BinOp) (a b : IArr ty) (ha : a.WF) (hb : b.WF) (hs : a.shape = b.shape) :
+    (∀ r, iBinop ty bld op a b = .ok r → r.shape = a.shape ∧
+      ∀ (i : Nat) (x y : BitVec ty.w), a.elems[i]? = some x → b.elems[i]? = some y →
+        ∃ v, scalarBin ty bld op x y = some v ∧ r.elems[i]? = some v) ∧
+    (iBinop ty bld op a b = .panic ↔
+      ∃ (i : Nat) (x y : BitVec ty.w), a.elems[i]? = some x ∧ b.elems[i]? = some y ∧ scalarBin ty bld op x y = none) ∧
+    (∀ e, iBinop ty bld op a b ≠ .err e) := by
+  rw [iBinop_eq ty bld op a b ha hb hs]
+  refine ⟨?_, ?_, ?_⟩
+  · intro r hr
+    cases hz : zipOpt (scalarBin ty bld op) a.elems b.elems with
+    | none => simp [hz, liftOpt] at hr
+    | some vs =>
+      simp only [hz, liftOpt, Res.ok.injEq] at hr
+      subst hr
+      exact ⟨rfl, fun i x y hx hy => zipOpt_some_getElem _ _ _ _ hz i x y hx hy⟩
+  · rw [← zipOpt_none_iff]
+    cases zipOpt (scalarBin ty bld op) a.elems b.elems <;> simp [liftOpt]
+  · intro e; cases zipOpt (scalarBin ty bld op) a.elems b.elems <;> simp [liftOpt]
+
+/-- **instance of `binop_at` with `f :=` the fixed-width operator**: whenever the native call returns, its value is the
+generic model `binop` run with the wrapping machine operator `wrapBin` — the receiver's shape and
+`wrapBin op x y` at every position. -/
+theorem iBinop_eq_binop_wrap (op : BinOp) (a b r : IArr ty) (ha : a.WF) (hb : b.WF)
+    (h : iBinop ty bld op a b = .ok r) : binop (wrapBin ty.signed op) a b = .ok r := by
+  by_cases hs : a.shape = b.shape
+  · rw [iBinop_eq ty bld op a b ha hb hs] at h
+    cases hz : zipOpt (scalarBin ty bld op) a.elems b.elems with
+    | none => simp [hz, liftOpt] at h
+    | some vs =>
+      simp only [hz, liftOpt, Res.ok.injEq] at h
+      subst h
+      have hl : b.elems.length = a.elems.length := by rw [ha, hb, hs]
+      rw [binop_ok_iff]
+      refine ⟨hs, by rw [hl, Nat.min_self, ha], ?_⟩
+      congr 1
+      exact zipOpt_some_eq _ _ (fun x y v hv => scalarBin_some ty bld op x y v hv) _ _ _ hz
+  · have : iBinop ty bld op a b = .panic := by
+      unfold iBinop binop symOf; simp [hs, evalArr]
+    rw [this] at h; cases h
+
+/-- without overflow checks `+ - * & | ^` are total: the native call IS `binop` at the wrapping operator -/
+theorem iBinop_release_eq_binop (op : BinOp) (h1 : op ≠ .div) (h2 : op ≠ .rem) (a b : IArr ty) (ha : a.WF) (hb : b.WF) :
+    iBinop ty Build.release op a b = binop (wrapBin ty.signed op) a b := by
+  by_cases hs : a.shape = b.shape
+  · have hl : b.elems.length = a.elems.length := by rw [ha, hb, hs]
+    rw [iBinop_eq ty _ op a b ha hb hs]
+    have : zipOpt (scalarBin ty Build.release op) a.elems b.elems = some (List.zipWith (wrapBin ty.signed op) a.elems b.elems) := by
+      rw [zipOpt, allSome_eq_some_iff]
+      have : scalarBin ty Build.release op = fun x y => some (wrapBin ty.signed op x y) := by
+        funext x y; exact release_total ty op h1 h2 x y
+      rw [this]
+      apply List.ext_getElem? ; intro i
+      simp only [List.getElem?_zipWith, List.getElem?_map]
+      cases a.elems[i]? <;> cases b.elems[i]? <;> simp
+    rw [this]
+    exact ((binop_ok_iff _ a b _).2 ⟨hs, by rw [hl, Nat.min_self, ha], rfl⟩).symm
+  · unfold iBinop binop symOf; simp [hs, evalArr]
+
+/-- **`a op= b` equals `a op b`** for the native integer operators, in every build (also when they panic) -/
+theorem iAssign_eq_iBinop (op : BinOp) (a b : IArr ty) (ha : a.WF) (hb : b.WF) :
+    iAssign ty bld op a b = iBinop ty bld op a b := by
+  by_cases hs : a.shape = b.shape
+  · rw [iAssign_eq ty bld op a b ha hb hs, iBinop_eq ty bld op a b ha hb hs]; rfl
+  · unfold iAssign iBinop assignop binop symOf; simp [hs, evalArr]
+
+/-- **`a op= s` equals `a op s`** -/
+theorem iAssignScalar_eq_iScalar (op : BinOp) (a : IArr ty) (s : BitVec ty.w) (ha : a.WF) :
+    iAssignScalar ty bld op a s = iScalar ty bld op a s := by
+  rw [iAssignScalar_eq, iScalar_eq ty bld op a s ha]; rfl
+
+/-- `a &= b` equals `a & b`, `a &= s` equals `a & s` (likewise `|`, `^`) -/
+theorem iBitAssign_eq_iBitop (op : BinOp) (a b : IArr ty) (ha : a.WF) (hb : b.WF) :
+    iBitAssign ty bld op a b = iBitop ty bld op a b ∧
+    ∀ s, iBitAssignScalar ty bld op a s = iBitScalar ty bld op a s := by
+  refine ⟨?_, fun s => rfl⟩
+  by_cases hs : a.shape = b.shape
+  · rw [iBitAssign_eq ty bld op a b ha hb hs, iBitop_eq ty bld op a b ha hb hs]
+  · unfold iBitAssign iBitop bitAssign assignop bitop symOf; simp [hs, evalArr]
+
+/-- the scalar compound assignment IS the scalar operator (`x op= y` ≡ `x = x op y` on a primitive integer) -/
+theorem scalarAsg_eq_scalarBin (op : BinOp) (x y : BitVec ty.w) : scalarAsg ty bld op x y = scalarBin ty bld op x y := rfl
+
+/-- **`a op s`**: the native operator against the scalar at every position; a panic exactly when a position panics -/
+theorem iScalar_native (op : BinOp) (a : IArr ty) (s : BitVec ty.w) (ha : a.WF) :
+    (∀ r, iScalar ty bld op a s = .ok r → r.shape = a.shape ∧
+      ∀ (i : Nat) (x : BitVec ty.w), a.elems[i]? = some x → ∃ v, scalarBin ty bld op x s = some v ∧ r.elems[i]? = some v) ∧
+    (iScalar ty bld op a s = .panic ↔ ∃ x ∈ a.elems, scalarBin ty bld op x s = none) := by
+  rw [iScalar_eq ty bld op a s ha]
+  refine ⟨?_, ?_⟩
+  · intro r hr
+    cases hz : allSome (a.elems.map (fun x => scalarBin ty bld op x s)) with
+    | none => simp [hz, liftOpt] at hr
+    | some vs =>
+      simp only [hz, liftOpt, Res.ok.injEq] at hr
+      subst hr
+      refine ⟨rfl, fun i x hx => ?_⟩
+      rw [allSome_eq_some_iff] at hz
+      have := congrArg (·[i]?) hz
+      simp only [List.getElem?_map, hx, Option.map_some] at this
+      cases hv : vs[i]? with
+      | none => simp [hv] at this
+      | some v => exact ⟨v, by simpa [hv] using this, rfl⟩
+  · cases hz : allSome (a.elems.map (fun x => scalarBin ty bld op x s)) with
+    | none =>
+      simp only [liftOpt, true_iff]
+      rw [allSome_eq_none_iff, List.mem_map] at hz
+      obtain ⟨x, hx, h⟩ := hz; exact ⟨x, hx, h⟩
+    | some vs =>
+      simp only [liftOpt, reduceCtorEq, false_iff]
+      rintro ⟨x, hx, h⟩
+      have : none ∈ a.elems.map (fun x => scalarBin ty bld op x s) := List.mem_map.2 ⟨x, hx, h⟩
+      rw [← allSome_eq_none_iff, hz] at this; cases this
+
+/-- **`-a`, `!a`**: the native unary operator at every position; `-a` panics (overflow checks) exactly when `MIN` occurs -/
+theorem iUnop_native (un : UnOp) (a : IArr ty) (ha : a.WF) :
+    iUnop ty bld un a = liftOpt a.shape (allSome (a.elems.map (scalarUn ty bld un))) ∧
+    (ty.signed = true → (iUnop ty Build.harness .neg a = .panic ↔ BitVec.intMin ty.w ∈ a.elems)) ∧
+    iUnop ty bld .not a = .ok ⟨a.elems.map (~~~ ·), a.shape⟩ := by
+  refine ⟨iUnop_eq ty bld un a ha, ?_, ?_⟩
+  · intro hsg
+    rw [iUnop_eq ty _ _ a ha]
+    cases hz : allSome (a.elems.map (scalarUn ty Build.harness .neg)) with
+    | none =>
+      simp only [liftOpt, true_iff]
+      rw [allSome_eq_none_iff, List.mem_map] at hz
+      obtain ⟨x, hx, h⟩ := hz
+      have : x = BitVec.intMin ty.w := by
+        simpa [scalarUn, unPanics, hsg, Build.harness] using h
+      exact this ▸ hx
+    | some vs =>
+      simp only [liftOpt, reduceCtorEq, false_iff]
+      intro hm
+      have : none ∈ a.elems.map (scalarUn ty Build.harness .neg) :=
+        List.mem_map.2 ⟨_, hm, by simp [scalarUn, unPanics, hsg, Build.harness]⟩
+      rw [← allSome_eq_none_iff, hz] at this; cases this
+  · rw [iUnop_eq ty _ _ a ha]
+    have : a.elems.map (scalarUn ty bld .not) = (a.elems.map (~~~ ·)).map some := by
+      rw [List.map_map]; apply List.map_congr_left; intro x _; simp [scalarUn, unPanics, wrapUn]
+    rw [this, allSome_map_some]; rfl
+
+/-- **`a & b`, `a | b`, `a ^ b` never panic on equal shapes**: they are `bitop` at the machine operator, in every build -/
+theorem iBitop_eq_bitop (op : BinOp) (hop : op = .and ∨ op = .or ∨ op = .xor) (a b : IArr ty) (ha : a.WF) (hb : b.WF) :
+    iBitop ty bld op a b = bitop (wrapBin ty.signed op) a b := by
+  by_cases hs : a.shape = b.shape
+  · rw [iBitop_eq ty bld op a b ha hb hs]
+    have : zipOpt (scalarBin ty bld op) a.elems b.elems = some (List.zipWith (wrapBin ty.signed op) a.elems b.elems) := by
+      rw [zipOpt, allSome_eq_some_iff]
+      have : scalarBin ty bld op = fun x y => some (wrapBin ty.signed op x y) := by
+        funext x y; rcases hop with h | h | h <;> subst h <;> simp [scalarBin, binPanics]
+      rw [this]
+      apply List.ext_getElem? ; intro i
+      simp only [List.getElem?_zipWith, List.getElem?_map]
+      cases a.elems[i]? <;> cases b.elems[i]? <;> simp
+    rw [this]
+    exact ((bitop_ok_iff _ a b _).2 ⟨hs, rfl⟩).symm
+  · unfold iBitop bitop symOf; simp [hs, evalArr]
+
+/-! ## overflow: the checked build computes the mathematical result or panics; the release build wraps -/
+
+/-- **`+ - *` with overflow checks**: a value is the exact mathematical result; a panic happens exactly when that result is
+not representable. -/
+theorem checked_arith_exact (x y : BitVec ty.w) :
+    (∀ v, scalarBin ty Build.harness .add x y = some v → ty.val v = ty.val x + ty.val y) ∧
+    (∀ v, scalarBin ty Build.harness .sub x y = some v → ty.val v = ty.val x - ty.val y) ∧
+    (∀ v, scalarBin ty Build.harness .mul x y = some v → ty.val v = ty.val x * ty.val y) ∧
+    (scalarBin ty Build.harness .add x y = none ↔ ¬ (ty.minVal ≤ ty.val x + ty.val y ∧ ty.val x + ty.val y ≤ ty.maxVal)) ∧
+    (scalarBin ty Build.harness .sub x y = none ↔ ¬ (ty.minVal ≤ ty.val x - ty.val y ∧ ty.val x - ty.val y ≤ ty.maxVal)) ∧
+    (scalarBin ty Build.harness .mul x y = none ↔ ¬ (ty.minVal ≤ ty.val x * ty.val y ∧ ty.val x * ty.val y ≤ ty.maxVal)) := by
+  refine ⟨add_value ty x y, sub_value ty x y, mul_value ty x y, ?_, ?_, ?_⟩ <;>
+    simp [scalarBin, binPanics, Build.harness, IntTy.inRange]
+
+/-- the two builds agree wherever the checked build returns; the release build never panics on `+ - * & | ^ << >>` -/
+theorem builds_agree (op : BinOp) (x y : BitVec ty.w) :
+    (∀ v, scalarBin ty Build.harness op x y = some v → scalarBin ty Build.release op x y = some v) ∧
+    (op ≠ .div → op ≠ .rem → scalarBin ty Build.release op x y = some (wrapBin ty.signed op x y)) :=
+  ⟨harness_some_release ty op x y, fun h1 h2 => release_total ty op h1 h2 x y⟩
+
+/-- **wrap-around is arithmetic modulo `2^w`** (release build): the result is congruent to the mathematical one -/
+theorem wrap_mod (x y : BitVec ty.w) :
+    ty.val (wrapBin ty.signed .add x y) % (2 : Int) ^ ty.w = (ty.val x + ty.val y) % (2 : Int) ^ ty.w ∧
+    ty.val (wrapBin ty.signed .sub x y) % (2 : Int) ^ ty.w = (ty.val x - ty.val y) % (2 : Int) ^ ty.w ∧
+    ty.val (wrapBin ty.signed .mul x y) % (2 : Int) ^ ty.w = (ty.val x * ty.val y) % (2 : Int) ^ ty.w ∧
+    ty.val (wrapUn .neg x) % (2 : Int) ^ ty.w = (- ty.val x) % (2 : Int) ^ ty.w := by
+  have hx := val_emod ty x
+  have hy := val_emod ty y
+  refine ⟨?_, ?_, ?_, ?_⟩
+  · rw [val_emod, Int.add_emod, hx, hy]; simp [wrapBin, BitVec.toNat_add]
+  · rw [val_emod, Int.sub_emod, hx, hy]
+    simp only [wrapBin, BitVec.toNat_sub, Int.natCast_emod, Int.natCast_add, two_pow_cast]
+    have hlt : (y.toNat : Int) ≤ (2 : Int) ^ ty.w := by have := y.isLt; have := two_pow_cast ty.w; omega
+    rw [Int.natCast_sub (by have := y.isLt; omega), two_pow_cast]
+    have : ((2 : Int) ^ ty.w - ↑y.toNat + ↑x.toNat) = (↑x.toNat - ↑y.toNat) + (2 : Int) ^ ty.w := by omega
+    rw [this, Int.add_emod_right]
+  · rw [val_emod, Int.mul_emod, hx, hy]; simp [wrapBin, BitVec.toNat_mul]
+  · rw [val_emod]
+    simp only [wrapUn, BitVec.toNat_neg, Int.natCast_emod, two_pow_cast]
+    rw [Int.natCast_sub (by have := x.isLt; omega), two_pow_cast, ← hx]
+    rw [Int.sub_emod, Int.emod_self, Int.emod_emod, Int.zero_sub, Int.neg_emod_eq_sub_emod (a := ty.val x % 2 ^ ty.w)]
+    rw [Int.sub_emod, Int.emod_self, Int.emod_emod, Int.zero_sub]
+    rw [Int.neg_emod_eq_sub_emod (a := ty.val x), Int.sub_emod _ (ty.val x), Int.emod_self, Int.zero_sub]
+
+/-! ## algebra of the native operators -/
+
+/-- **`+` and `*` commute and are associative modulo `2^w`; `a - b + b = a`; `-(-a) = a`** (release build) -/
+theorem wrap_ring (s : Bool) {w : Nat} (a b c : BitVec w) :
+    wrapBin s .add a b = wrapBin s .add b a ∧ wrapBin s .mul a b = wrapBin s .mul b a ∧
+    wrapBin s .add (wrapBin s .add a b) c = wrapBin s .add a (wrapBin s .add b c) ∧
+    wrapBin s .mul (wrapBin s .mul a b) c = wrapBin s .mul a (wrapBin s .mul b c) ∧
+    wrapBin s .add (wrapBin s .sub a b) b = a ∧ wrapUn .neg (wrapUn .neg a) = a :=
+  ⟨BitVec.add_comm a b, BitVec.mul_comm a b, BitVec.add_assoc a b c, BitVec.mul_assoc a b c,
+    BitVec.sub_add_cancel a b, BitVec.neg_neg⟩
+
+/-- **bit operators**: `!(!a) = a`, `a ^ a = 0`, `a & a = a`, `a | a = a`, De Morgan (both), commutativity — every build -/
+theorem bit_algebra (s : Bool) {w : Nat} (a b : BitVec w) :
+    wrapUn .not (wrapUn .not a) = a ∧ wrapBin s .xor a a = 0 ∧ wrapBin s .and a a = a ∧ wrapBin s .or a a = a ∧
+    wrapUn .not (wrapBin s .and a b) = wrapBin s .or (wrapUn .not a) (wrapUn .not b) ∧
+    wrapUn .not (wrapBin s .or a b) = wrapBin s .and (wrapUn .not a) (wrapUn .not b) ∧
+    wrapBin s .and a b = wrapBin s .and b a ∧ wrapBin s .or a b = wrapBin s .or b a ∧ wrapBin s .xor a b = wrapBin s .xor b a :=
+  ⟨BitVec.not_not, BitVec.xor_self, BitVec.and_self, BitVec.or_self, BitVec.not_and, BitVec.not_or,
+    BitVec.and_comm a b, BitVec.or_comm a b, BitVec.xor_comm a b⟩
+
+/-- **in the overflow-checks build** `+`, `*` still commute — including WHEN they panic —, `a - b + b = a` whenever `a - b`
+is defined (the addition then cannot overflow), `-(-a) = a` whenever `-a` is defined, and the associativity laws hold
+whenever both sides are defined. -/
+theorem checked_algebra (a b c : BitVec ty.w) :
+    scalarBin ty bld .add a b = scalarBin ty bld .add b a ∧ scalarBin ty bld .mul a b = scalarBin ty bld .mul b a ∧
+    (∀ d, scalarBin ty Build.harness .sub a b = some d → scalarBin ty Build.harness .add d b = some a) ∧
+    (∀ n, scalarUn ty Build.harness .neg a = some n → scalarUn ty Build.harness .neg n = some a) ∧
+    (∀ u v p q, scalarBin ty bld .add a b = some u → scalarBin ty bld .add u c = some p →
+      scalarBin ty bld .add b c = some v → scalarBin ty bld .add a v = some q → p = q) ∧
+    (∀ u v p q, scalarBin ty bld .mul a b = some u → scalarBin ty bld .mul u c = some p →
+      scalarBin ty bld .mul b c = some v → scalarBin ty bld .mul a v = some q → p = q) := by
+  refine ⟨?_, ?_, ?_, ?_, ?_, ?_⟩
+  · have h1 : ty.val a + ty.val b = ty.val b + ty.val a := Int.add_comm _ _
+    have h2 : a + b = b + a := BitVec.add_comm a b
+    have h3 : binPanics ty bld .add a b = binPanics ty bld .add b a := by simp only [binPanics, h1]
+    simp only [scalarBin, h3, wrapBin, h2]
+  · have h1 : ty.val a * ty.val b = ty.val b * ty.val a := Int.mul_comm _ _
+    have h2 : a * b = b * a := BitVec.mul_comm a b
+    have h3 : binPanics ty bld .mul a b = binPanics ty bld .mul b a := by simp only [binPanics, h1]
+    simp only [scalarBin, h3, wrapBin, h2]
+  · intro d hd
+    have hv := sub_value ty a b d hd
+    have hd' := scalarBin_some ty _ _ a b d hd
+    have hr := (inRange_iff ty _).1 (val_inRange ty a)
+    have : ty.inRange (ty.val d + ty.val b) = true := by
+      rw [inRange_iff]; rw [hv]; constructor <;> omega
+    simp only [scalarBin, binPanics, Build.harness, this, Bool.not_true, Bool.and_false, Bool.false_eq_true, if_false,
+      Option.some.injEq]
+    rw [hd']; exact BitVec.sub_add_cancel a b
+  · intro n hn
+    obtain ⟨hs, hne, hn', -⟩ := neg_value ty a n hn
+    subst hn'
+    have : -a ≠ BitVec.intMin ty.w := fun h => hne (BitVec.neg_eq_intMin.1 h)
+    simp [scalarUn, unPanics, hs, this, wrapUn, Build.harness]
+  · intro u v p q h1 h2 h3 h4
+    rw [scalarBin_some ty bld _ _ _ _ h2, scalarBin_some ty bld _ _ _ _ h1, scalarBin_some ty bld _ _ _ _ h4,
+      scalarBin_some ty bld _ _ _ _ h3]
+    exact BitVec.add_assoc a b c
+  · intro u v p q h1 h2 h3 h4
+    rw [scalarBin_some ty bld _ _ _ _ h2, scalarBin_some ty bld _ _ _ _ h1, scalarBin_some ty bld _ _ _ _ h4,
+      scalarBin_some ty bld _ _ _ _ h3]
+    exact BitVec.mul_assoc a b c
+
+/-! ## division and remainder -/
+
+/-- **`x / 0` and `x % 0` panic for every `x`, in every build; `MIN / -1` and `MIN % -1` too (signed)** — and these are
+the ONLY panics of `/` and `%`. -/
+theorem div_rem_panics (x y : BitVec ty.w) :
+    scalarBin ty bld .div x 0 = none ∧ scalarBin ty bld .rem x 0 = none ∧
+    (ty.signed = true → scalarBin ty bld .div (BitVec.intMin ty.w) (BitVec.allOnes ty.w) = none ∧
+      scalarBin ty bld .rem (BitVec.intMin ty.w) (BitVec.allOnes ty.w) = none) ∧
+    (scalarBin ty bld .div x y = none ↔ y = 0 ∨ (ty.signed = true ∧ x = BitVec.intMin ty.w ∧ y = BitVec.allOnes ty.w)) ∧
+    (scalarBin ty bld .rem x y = none ↔ y = 0 ∨ (ty.signed = true ∧ x = BitVec.intMin ty.w ∧ y = BitVec.allOnes ty.w)) := by
+  refine ⟨by simp [scalarBin, binPanics], by simp [scalarBin, binPanics],
+    fun h => ⟨by simp [scalarBin, binPanics, h], by simp [scalarBin, binPanics, h]⟩, ?_, ?_⟩
+  · rw [← divPanics_iff ty bld]; unfold scalarBin; split <;> simp_all
+  · rw [← remPanics_iff ty bld]; unfold scalarBin; split <;> simp_all
+
+/-- **`MIN / -1` is the only overflowing division**: for a non-zero divisor the truncated quotient of the operands' values is
+representable unless the operands are `MIN` and `-1` of a signed type (where it is `2^(w-1) = MAX + 1`). -/
+theorem div_overflow_only (hw : 0 < ty.w) (x y : BitVec ty.w) (hy : y ≠ 0) :
+    ty.inRange ((ty.val x).tdiv (ty.val y)) = false ↔
+      (ty.signed = true ∧ x = BitVec.intMin ty.w ∧ y = BitVec.allOnes ty.w) := by
+  constructor
+  · intro h
+    by_cases hp : ty.signed = true ∧ x = BitVec.intMin ty.w ∧ y = BitVec.allOnes ty.w
+    · exact hp
+    · exfalso
+      have hn : ¬ binPanics ty Build.release .div x y = true := by
+        rw [divPanics_iff]; rintro (h0 | h1)
+        · exact hy h0
+        · exact hp h1
+      have hq : scalarBin ty Build.release .div x y = some (wrapBin ty.signed .div x y) := by simp [scalarBin, hn]
+      rw [← div_value ty Build.release x y _ hq, val_inRange] at h
+      cases h
+  · rintro ⟨hs, rfl, rfl⟩
+    have h1 : ty.val (BitVec.intMin ty.w) = -(2 : Int) ^ (ty.w - 1) := by
+      simp only [IntTy.val, hs, if_true]; exact BitVec.toInt_intMin_of_pos hw
+    have h2 : ty.val (BitVec.allOnes ty.w) = -1 := by
+      simp [IntTy.val, hs, BitVec.toInt_allOnes, hw]
+    rw [h1, h2]
+    simp only [Int.tdiv_neg, Int.tdiv_one, Int.neg_neg, IntTy.inRange, IntTy.minVal, IntTy.maxVal, hs, if_true]
+    simp only [Bool.and_eq_false_iff, decide_eq_false_iff_not]
+    right; omega
+
+/-- **Rust's truncating division**: the quotient is the quotient of the values rounded toward zero, the remainder has the
+sign of the dividend and is smaller than the divisor in absolute value, and `(a / b) * b + a % b = a` — on the values
+and on the bit patterns — whenever `/` is defined (`%` is then defined too). -/
+theorem div_rem_spec (x y q : BitVec ty.w) (hq : scalarBin ty bld .div x y = some q) :
+    ∃ r, scalarBin ty bld .rem x y = some r ∧
+      ty.val q = (ty.val x).tdiv (ty.val y) ∧ ty.val r = (ty.val x).tmod (ty.val y) ∧
+      ty.val q * ty.val y + ty.val r = ty.val x ∧
+      (0 ≤ ty.val x → 0 ≤ ty.val r) ∧ (ty.val x ≤ 0 → ty.val r ≤ 0) ∧ (ty.val r).natAbs < (ty.val y).natAbs ∧
+      wrapBin ty.signed .add (wrapBin ty.signed .mul q y) r = x := by
+  have hnp : ¬ binPanics ty bld .div x y = true := by
+    intro h; simp [scalarBin, h] at hq
+  have hnr : ¬ binPanics ty bld .rem x y = true := by
+    rw [remPanics_iff, ← divPanics_iff ty bld]; exact hnp
+  have hr : scalarBin ty bld .rem x y = some (wrapBin ty.signed .rem x y) := by simp [scalarBin, hnr]
+  have hy0 : ty.val y ≠ 0 := by
+    intro h0
+    have : y = 0 := by
+      rw [← val_inj ty]; rw [h0]; simp [IntTy.val]
+    exact hnp ((divPanics_iff ty bld x y).2 (Or.inl this))
+  have vq := div_value ty bld x y q hq
+  have vr := rem_value ty bld x y _ hr
+  have hsum : ty.val q * ty.val y + ty.val (wrapBin ty.signed .rem x y) = ty.val x := by
+    rw [vq, vr, Int.mul_comm]; exact Int.mul_tdiv_add_tmod _ _
+  refine ⟨_, hr, vq, vr, hsum, ?_, ?_, ?_, ?_⟩
+  · intro h; rw [vr]; exact Int.tmod_nonneg _ h
+  · intro h; rw [vr]
+    have := Int.tmod_nonneg (ty.val y) (a := -ty.val x) (by omega)
+    rw [Int.neg_tmod] at this; omega
+  · rw [vr, Int.natAbs_tmod]; exact Nat.mod_lt _ (by omega)
+  · -- both sides denote the same value modulo 2^w, hence the same bit pattern
+    rw [← BitVec.toNat_inj, ← Int.ofNat_inj, ← val_emod ty, ← val_emod ty x]
+    have hm := (wrap_mod ty (wrapBin ty.signed .mul q y) (wrapBin ty.signed .rem x y)).1
+    have hm2 := (wrap_mod ty q y).2.2.1
+    rw [hm, Int.add_emod, hm2, ← Int.add_emod, hsum]
+
+/-! ## shifts -/
+
+/-- **shifts by `k < w`**: `x << k` is multiplication by `2^k` modulo `2^w`, `x >> k` is FLOOR division of the value by `2^k`
+— logical for the unsigned types, arithmetic (sign-propagating) for the signed ones —, in every build. -/
+theorem shift_small (x k : BitVec ty.w) (hk : k.toNat < ty.w) :
+    scalarBin ty bld .shl x k = some (wrapBin ty.signed .mul x (BitVec.twoPow ty.w k.toNat)) ∧
+    (∀ r, scalarBin ty bld .shl x k = some r → ty.val r % (2 : Int) ^ ty.w = (ty.val x * (2 : Int) ^ k.toNat) % (2 : Int) ^ ty.w) ∧
+    ∃ r, scalarBin ty bld .shr x k = some r ∧ ty.val r = ty.val x / (2 : Int) ^ k.toNat := by
+  refine ⟨shl_value ty bld x k hk, ?_, ?_⟩
+  · intro r hr
+    rw [shl_value ty bld x k hk, Option.some.injEq] at hr
+    subst hr
+    have h1 := (wrap_mod ty x (BitVec.twoPow ty.w k.toNat)).2.2.1
+    simp only [wrapBin] at h1
+    have htp : ty.val (BitVec.twoPow ty.w k.toNat) % (2 : Int) ^ ty.w = (2 : Int) ^ k.toNat % (2 : Int) ^ ty.w := by
+      rw [val_emod, BitVec.toNat_twoPow_of_lt hk, two_pow_cast]
+      have hlt : 2 ^ k.toNat < 2 ^ ty.w := Nat.pow_lt_pow_right (by omega) hk
+      have h0 : (0 : Int) ≤ ((2 ^ k.toNat : Nat) : Int) := Int.natCast_nonneg _
+      have h1 : ((2 ^ k.toNat : Nat) : Int) < ((2 ^ ty.w : Nat) : Int) := Int.ofNat_lt.2 hlt
+      rw [two_pow_cast] at h0 h1
+      rw [two_pow_cast] at h1
+      exact (Int.emod_eq_of_lt h0 h1).symm
+    rw [h1, Int.mul_emod, htp, ← Int.mul_emod]
+  · have : ¬ ty.w ≤ k.toNat := by omega
+    have hv : scalarBin ty bld .shr x k = some (wrapBin ty.signed .shr x k) := by simp [scalarBin, binPanics, this]
+    exact ⟨_, hv, shr_value ty bld x k _ hk hv⟩
+
+/-- **shift amounts `>= w`** (a negative amount of a signed type reads as one): a panic with overflow checks — the build the
+harness executes —; without them the amount is taken modulo `w`. -/
+theorem shift_large (x k : BitVec ty.w) (hk : ty.w ≤ k.toNat) :
+    scalarBin ty Build.harness .shl x k = none ∧ scalarBin ty Build.harness .shr x k = none ∧
+    scalarBin ty Build.release .shl x k = some (x <<< (k.toNat % ty.w)) ∧
+    (ty.signed = true → k.toInt < 0 → 0 < ty.w → ty.w ≤ k.toNat) := by
+  refine ⟨by simp [scalarBin, binPanics, Build.harness, hk], by simp [scalarBin, binPanics, Build.harness, hk],
+    by simp [scalarBin, binPanics, Build.release, wrapBin], fun _ _ _ => hk⟩
+
+/-- a negative shift amount of a signed type is `>= w` when read as unsigned (so it panics with overflow checks) -/
+theorem negative_amount_is_large {w : Nat} (k : BitVec w) (h : k.toInt < 0) : w ≤ k.toNat := by
+  have h1 : w < 2 ^ w := Nat.lt_two_pow_self
+  rw [BitVec.toInt_eq_toNat_cond] at h
+  split at h
+  · omega
+  · rename_i h2
+    have : 2 ^ w ≤ 2 * k.toNat := by omega
+    by_cases hw : w = 0
+    · omega
+    · have : 2 ^ w = 2 * 2 ^ (w - 1) := by
+        rw [← Nat.pow_succ']; congr 1; omega
+      have : w - 1 < 2 ^ (w - 1) := Nat.lt_two_pow_self
+      omega
+
+/-! ## `bool` -/
+
+/-- `& | ^ !` on `bool` are the Boolean connectives (the 1-bit instance of the operators above); the `bool` "shifts" of
+`Numeric` are `x && !k` -/
+theorem bool_ops (a b : Bool) :
+    wrapBin false .and (BitVec.ofBool a) (BitVec.ofBool b) = BitVec.ofBool (a && b) ∧
+    wrapBin false .or (BitVec.ofBool a) (BitVec.ofBool b) = BitVec.ofBool (a || b) ∧
+    wrapBin false .xor (BitVec.ofBool a) (BitVec.ofBool b) = BitVec.ofBool (a ^^ b) ∧
+    wrapUn .not (BitVec.ofBool a) = BitVec.ofBool (!a) ∧
+    boolShl a b = (a && !b) ∧ boolShr a b = (a && !b) := by
+  refine ⟨by simp [wrapBin], by simp [wrapBin], by simp [wrapBin], by simp [wrapUn], ?_, ?_⟩ <;>
+    cases a <;> cases b <;> rfl
+
+end native
+
+/-! ## non-vacuity of the native-operator theorems -/
+
+example : iBinop .i8 Build.harness .add ⟨[127#8, 1#8], [2]⟩ ⟨[1#8, 1#8], [2]⟩ = .panic := by decide
+example : iBinop .i8 Build.release .add ⟨[127#8, 1#8], [2]⟩ ⟨[1#8, 1#8], [2]⟩ = .ok ⟨[128#8, 2#8], [2]⟩ := by decide
+example : IntTy.i8.val (128#8) = -128 := by decide
+example : iBinop .i8 Build.harness .div ⟨[(-7 : Int), 7, -7, 7].map (IntTy.ofVal .i8), [4]⟩ ⟨[(2 : Int), -2, -2, 2].map (IntTy.ofVal .i8), [4]⟩
+    = .ok ⟨[(-3 : Int), -3, 3, 3].map (IntTy.ofVal .i8), [4]⟩ := by decide
+example : iBinop .i8 Build.harness .rem ⟨[(-7 : Int), 7, -7, 7].map (IntTy.ofVal .i8), [4]⟩ ⟨[(2 : Int), -2, -2, 2].map (IntTy.ofVal .i8), [4]⟩
+    = .ok ⟨[(-1 : Int), 1, -1, 1].map (IntTy.ofVal .i8), [4]⟩ := by decide
+example : scalarBin .i8 Build.release .div (BitVec.intMin 8) (BitVec.allOnes 8) = none := by decide
+example : scalarBin .u8 Build.harness .div 200#8 (BitVec.allOnes 8) = some 0#8 := rfl
+example : scalarBin .i8 Build.harness .shl 1#8 8#8 = none ∧ scalarBin .i8 Build.release .shl 1#8 8#8 = some 1#8 := ⟨rfl, rfl⟩
+example : scalarBin .i8 Build.release .shl 1#8 (BitVec.allOnes 8) = some 128#8 := rfl
+example : scalarBin .i8 Build.harness .shr 128#8 2#8 = some 224#8 ∧ IntTy.i8.val 224#8 = -32 := ⟨rfl, rfl⟩
+example : scalarBin .u8 Build.harness .shr 200#8 2#8 = some 50#8 := rfl
+example : scalarUn .i8 Build.harness .neg (BitVec.intMin 8) = none ∧ scalarUn .i8 Build.release .neg (BitVec.intMin 8) = some (BitVec.intMin 8) := ⟨rfl, rfl⟩
+example : (⟨[127#8, 1#8], [2]⟩ : IArr .i8).WF := by decide
+example : ∃ k : BitVec 8, k.toInt < 0 := ⟨255#8, by decide⟩
+example : scalarBin .i8 Build.harness .sub (BitVec.intMin 8) 5#8 = none ∧ scalarBin .i8 Build.harness .sub 5#8 7#8 = some 254#8 := ⟨rfl, rfl⟩
+example : scalarUn .i8 Build.harness .neg 5#8 = some 251#8 := rfl
+example : scalarBin .i16 Build.harness .mul 200#16 100#16 = some 20000#16 ∧ scalarBin .i16 Build.harness .mul 200#16 200#16 = none := ⟨rfl, rfl⟩
+example : 0 < IntTy.i64.w ∧ (3#8 : BitVec 8) ≠ 0 ∧ (3#8 : BitVec 8).toNat < IntTy.u8.w ∧ IntTy.u8.w ≤ (9#8 : BitVec 8).toNat := by decide
+example : BinOp.add ≠ .div ∧ BinOp.add ≠ .rem := by decide
+example : iScalar .i64 Build.harness .mul ⟨[3#64, 4#64], [2, 1]⟩ (IntTy.ofVal .i64 (-5)) = .ok ⟨[IntTy.ofVal .i64 (-15), IntTy.ofVal .i64 (-20)], [2, 1]⟩ := by decide
+example : iUnop .bool Build.harness .not ⟨[1#1, 0#1], [2]⟩ = .ok ⟨[0#1, 1#1], [2]⟩ := by decide
+example : iBitop .u8 Build.harness .and ⟨[200#8, 15#8], [2]⟩ ⟨[100#8, 9#8], [2]⟩ = .ok ⟨[64#8, 9#8], [2]⟩ := by decide
+example : IntTy.i8.signed = true := rfl
 
 end ArrModel.C20
